@@ -174,6 +174,43 @@ fn exhaustive(out: &mut Out, maxw: usize) {
     }
 }
 
+/// every operator x every wide width x all pairs of boundary operands (0, 1, 2, all ones,
+/// min signed, max signed, min signed + 1, width, width - 1, width + 1)
+fn boundary(out: &mut Out, skip_wide_div: bool) {
+    for &w in WIDE_WIDTHS.iter() {
+        let one = BigUint::from(1u32);
+        let all = (one.clone() << w) - one.clone();
+        let msb = one.clone() << (w - 1);
+        let mut vals: Vec<BigUint> = vec![
+            BigUint::from(0u32), one.clone(), BigUint::from(2u32) & all.clone(), all.clone(), msb.clone(),
+            msb.clone() - one.clone(), (msb.clone() + one.clone()) & all.clone(),
+            BigUint::from(w as u64) & all.clone(), BigUint::from((w - 1) as u64) & all.clone(),
+            BigUint::from((w + 1) as u64) & all.clone(),
+        ];
+        vals.sort();
+        vals.dedup();
+        for op in fv::gen::BIN_KINDS.iter() {
+            if skip_wide_div && w > 129 && ["divu", "modu", "divs", "mods"].contains(op) {
+                continue;
+            }
+            for a in &vals {
+                for b in &vals {
+                    ev_constop(out, op, &Constant::new_big(a.clone(), w), &Constant::new_big(b.clone(), w));
+                }
+            }
+        }
+        for a in &vals {
+            for bits in [1usize, w - 1, w, w + 1, w + 7, w + 8, 2 * w, 2 * w + 1] {
+                if bits >= 1 {
+                    for op in ["zext", "sext", "trun"] {
+                        ev_constext(out, op, &Constant::new_big(a.clone(), w), bits);
+                    }
+                }
+            }
+        }
+    }
+}
+
 fn amount(rng: &mut Rng, w: usize) -> Constant {
     // shift amounts around the width, and far beyond it (including beyond a machine word)
     let one = BigUint::from(1u32);
@@ -389,6 +426,7 @@ fn main() {
     match mode.as_str() {
         "exhaustive" => exhaustive(&mut out, fv::arg_u64("maxw", 4) as usize),
         "wide" => wide(&mut out, &mut rng, n),
+        "boundary" => boundary(&mut out, fv::arg_u64("skipwidediv", 1) == 1),
         "trees" => trees(&mut out, &mut rng, n),
         "derived" => derived(&mut out, &mut rng, n),
         "replay" => replay(&mut out, &fv::arg_str("in", "")),
